@@ -3,9 +3,10 @@ CONSTANTS
   Props <- PropsA
   Avps <- AvpsA
   MaxOps = 0
-  Calls <- CallsQuick
+  Calls <- CallsThorough
   MaxCalls = 4
   CheckUnderLock = TRUE
-  Forced = TRUE
+  GateSave = TRUE
+  Modes = {"free", "forced"}
 INVARIANTS LTypeOK LockOK RunningHeld AgreedOnly OncePerHeight EmitSched
 CHECK_DEADLOCK FALSE
